@@ -1018,7 +1018,7 @@ static void run_gauss_single(vmc::Ctx& ctx, int axis, int fi, int vi, int mi)
   for (int i = 1; i <= h; ++i)
     {
       const double want = std::exp(-(double)i * i / (2 * sigma * sigma));
-      const double e = std::fabs(r[c + i] / r[c] - want) - (1e-4 * want + 1e-30);
+      const double e = std::fabs(r[c + i] / r[c] - want) - (1e-4 * want + 2e-6); // taps below the documented ~1e-6 cut-off may be dropped
       if (e > worst) { worst = e; wi = i; }
     }
   if (worst > 0)
@@ -1345,7 +1345,7 @@ static int run_main(vmc::Ctx& ctx)
   ctx.assume("completeness by (bi)linearity: agreement on every unit impulse (x every unit kernel tap) is agreement for all data up to rounding; shortcuts that break linearity in the kernel (is_trivial) are covered by the kernels 2e_0, e_0+e_j and the labelling kernels");
   ctx.assume("convolution parts use small-integer kernels and data, exact in float: tolerance 1e-5 x sum|kernel| x sum|data|");
   ctx.assume("padded-DFT filter is compared with direct convolution only if, per dimension, padded length >= 2 x span(input range U output range) and no non-zero tap outside [-(S-1),S-1] has a periodic image inside (otherwise counted in dftfilt_groups_outside_precondition); tolerance 64 eps_float (log2 P + 8) sum|k| sum|x|");
-  ctx.assume("Gaussian: FWHM in units of the sampling distance (fwhm/voxel); sigma = fwhm/sqrt(8 ln 2); k_i/k_0 within 1e-4 relative; sum within 1e-5; even max_kernel_size values are not enumerated (2*(m/2)+1 > m elements, not part of the statement)");
+  ctx.assume("Gaussian: FWHM in units of the sampling distance (fwhm/voxel); sigma = fwhm/sqrt(8 ln 2); k_i/k_0 within 1e-4 relative + 2e-6 absolute (the documented kernel cut-off is ~1e-6 of the peak); sum within 1e-5; even max_kernel_size values are not enumerated (2*(m/2)+1 > m elements, not part of the statement)");
   ctx.assume("Metz: the kernel is truncated at 1e-4 of its peak and at max_kernel_size WITHOUT renormalisation, so 'kernel sums to one' is checked with tolerance 2e-3 (measured on the pinned tree: <= 1e-4) and only for power 0 and kernels not shortened by max_kernel_size (others are counted and observed); kernel length read from the private coefficients");
   ctx.assume("BoundaryConditions::periodic is not supported by ArrayFilter1DUsingConvolution (error()): recorded as rejected configuration");
   if (freopen("/dev/null", "w", stdout) == nullptr) {} // SeparableMetzArrayFilter prints its kernels with printf
